@@ -187,6 +187,7 @@ structure Obs where
   cancelled : List Nat := []
   ownFailed : List Nat := []
   faults : Bool := false
+  exited : Bool := false
 
 def intersects (a b : List Nat) : Bool := a.any fun x => b.contains x
 
@@ -235,8 +236,18 @@ def judge (sc : Scenario) (evs : List (Proc × Ev)) : List String :=
     | .lab (.unsubAccept i) => if (o.ended.find? (·.1 == i)).isSome then o else { o with ended := (i, o.log.length) :: o.ended }
     | .lab .loopExit =>
       let open' := o.reg.filter fun r => (o.ended.find? (·.1 == r.1)).isNone
-      { o with ended := open'.map (fun r => (r.1, o.log.length)) ++ o.ended }
+      { o with ended := open'.map (fun r => (r.1, o.log.length)) ++ o.ended, exited := true }
     | .lab (.cancel i) => { o with cancelled := i :: o.cancelled }
+    | .pubRet p r =>
+      -- a Publish that returned nil or the replayer's error was accepted by the loop (and so delivered)
+      if (r == "nil" || r == "put") && !o.log.contains p then
+        let tag := if r == "put" then "C17" else "C03"
+        { o with viol := s!"{tag}:Publish of pub{p} returned {r} but Joe never accepted the message for delivery" :: o.viol }
+      else o
+    | .shutRet k r =>
+      if r == "nil" && !o.exited then
+        { o with viol := s!"C07:Shutdown call {k} returned nil before all subscribers were released" :: o.viol }
+      else o
     | .subRet i r =>
       let o := { o with returnedSubs := i :: o.returnedSubs }
       -- C06: own error is returned if one occurred and the subscription was not also cancelled
